@@ -185,6 +185,15 @@ def read_text(path):
 # --------------------------------------------------------------------------- GAF / GFA splitting
 
 
+def lines_of(text):
+    """records of a text file: separated by LF (an optional CR in front of it belongs to the terminator) and by nothing else -
+    unlike str.splitlines(), which also cuts at VT, FF, FS, GS, RS, NEL, U+2028 and U+2029"""
+    ls = text.split("\n")
+    if ls and ls[-1] == "":
+        ls.pop()
+    return [l[:-1] if l.endswith("\r") else l for l in ls]
+
+
 def split_gaf_line(line):
     f = line.rstrip("\n").split("\t")
     return f[:12], f[12:]
@@ -236,7 +245,7 @@ def split_gfa(text):
     """-> (segs, links, other) ; segs: [[id, seq, [tags...]]], links: [[a,ao,b,bo,ov,[tags]]],
     in file order, with line numbers"""
     segs, links, other = [], [], []
-    for ln, line in enumerate(text.splitlines()):
+    for ln, line in enumerate(lines_of(text)):
         f = line.split("\t")
         if f[0] == "S":
             segs.append({"ln": ln, "id": f[1], "seq": f[2], "tags": [split_tag(t) for t in f[3:]]})
